@@ -14,7 +14,9 @@
 use indexmap::IndexMap;
 use wac_parser::Document;
 use wac_types::{BorrowedPackageKey, ItemKind, Package, Types};
-use wasmparser::component_types::{ComponentEntityType, ComponentFuncType};
+use wac_types::{DefinedType, PrimitiveType, ValueType};
+use wasmparser::component_types::{ComponentDefinedType, ComponentEntityType, ComponentFuncType, ComponentValType};
+use wasmparser::PrimitiveValType as P;
 
 const WIT: &str = r#"package lib:types@1.0.0;
 interface shapes {
@@ -59,6 +61,39 @@ fn component(world: &str) -> Vec<u8> {
 fn kind_name(k: &ItemKind) -> &'static str { match k { ItemKind::Func(_) => "func", ItemKind::Instance(_) => "instance", ItemKind::Component(_) => "component", ItemKind::Module(_) => "module", ItemKind::Type(_) => "type", ItemKind::Value(_) => "value" } }
 fn ent_name(e: &ComponentEntityType) -> &'static str { match e { ComponentEntityType::Func(_) => "func", ComponentEntityType::Instance(_) => "instance", ComponentEntityType::Component(_) => "component", ComponentEntityType::Module(_) => "module", ComponentEntityType::Type { .. } => "type", ComponentEntityType::Value(_) => "value" } }
 
+fn prim_eq(a: PrimitiveType, b: P) -> bool {
+    matches!((a, b), (PrimitiveType::U8, P::U8) | (PrimitiveType::S8, P::S8) | (PrimitiveType::U16, P::U16) | (PrimitiveType::S16, P::S16) | (PrimitiveType::U32, P::U32) | (PrimitiveType::S32, P::S32)
+        | (PrimitiveType::U64, P::U64) | (PrimitiveType::S64, P::S64) | (PrimitiveType::F32, P::F32) | (PrimitiveType::F64, P::F64) | (PrimitiveType::Char, P::Char) | (PrimitiveType::Bool, P::Bool)
+        | (PrimitiveType::String, P::String) | (PrimitiveType::ErrorContext, P::ErrorContext))
+}
+/// structural comparison of a decoded value type with wasmparser's (aliases on wac's side are looked through; resource
+/// identity is not compared here, only that a handle is own / borrow)
+fn val_eq(types: &Types, a: ValueType, wt: &wasmparser::types::Types, b: ComponentValType) -> bool {
+    let opt = |x: Option<ValueType>, y: Option<ComponentValType>| match (x, y) { (None, None) => true, (Some(x), Some(y)) => val_eq(types, x, wt, y), _ => false };
+    match (a, b) {
+        (ValueType::Primitive(p), ComponentValType::Primitive(q)) => prim_eq(p, q),
+        (ValueType::Defined(d), _) if matches!(types[d], DefinedType::Alias(_)) => { let DefinedType::Alias(inner) = types[d] else { unreachable!() }; val_eq(types, inner, wt, b) }
+        (ValueType::Primitive(p), ComponentValType::Type(id)) => matches!(&wt[id], ComponentDefinedType::Primitive(q) if prim_eq(p, *q)),
+        (ValueType::Own(_), ComponentValType::Type(id)) => matches!(&wt[id], ComponentDefinedType::Own(_)),
+        (ValueType::Borrow(_), ComponentValType::Type(id)) => matches!(&wt[id], ComponentDefinedType::Borrow(_)),
+        (ValueType::Defined(d), ComponentValType::Type(id)) => match (&types[d], &wt[id]) {
+            (DefinedType::Tuple(xs), ComponentDefinedType::Tuple(t)) => xs.len() == t.types.len() && xs.iter().zip(t.types.iter()).all(|(x, y)| val_eq(types, *x, wt, *y)),
+            (DefinedType::List(x), ComponentDefinedType::List(y)) => val_eq(types, *x, wt, *y),
+            (DefinedType::FixedSizeList(x, n), ComponentDefinedType::FixedLengthList(y, m)) => n == m && val_eq(types, *x, wt, *y),
+            (DefinedType::Option(x), ComponentDefinedType::Option(y)) => val_eq(types, *x, wt, *y),
+            (DefinedType::Result { ok, err }, ComponentDefinedType::Result { ok: o2, err: e2 }) => opt(*ok, *o2) && opt(*err, *e2),
+            (DefinedType::Variant(v), ComponentDefinedType::Variant(w)) => v.cases.len() == w.cases.len() && v.cases.iter().zip(w.cases.iter()).all(|((n, x), (m, y))| n == m.as_str() && opt(*x, y.ty)),
+            (DefinedType::Record(r), ComponentDefinedType::Record(q)) => r.fields.len() == q.fields.len() && r.fields.iter().zip(q.fields.iter()).all(|((n, x), (m, y))| n == m.as_str() && val_eq(types, *x, wt, *y)),
+            (DefinedType::Flags(f), ComponentDefinedType::Flags(g)) => f.0.iter().map(|s| s.as_str()).eq(g.iter().map(|s| s.as_str())),
+            (DefinedType::Enum(f), ComponentDefinedType::Enum(g)) => f.0.iter().map(|s| s.as_str()).eq(g.iter().map(|s| s.as_str())),
+            (DefinedType::Stream(x), ComponentDefinedType::Stream(y)) => opt(*x, *y),
+            (DefinedType::Future(x), ComponentDefinedType::Future(y)) => opt(*x, *y),
+            _ => false,
+        },
+        _ => false,
+    }
+}
+
 fn func_sig(f: &ComponentFuncType) -> (Vec<String>, bool) { (f.params.iter().map(|(n, _)| n.to_string()).collect(), f.result.is_some()) }
 
 /// compares one decoded item with wasmparser's entity; Err(description) on a difference
@@ -69,6 +104,9 @@ fn compare(types: &Types, k: ItemKind, wt: &wasmparser::types::Types, e: &Compon
             let got = (types[id].params.keys().cloned().collect::<Vec<_>>(), types[id].result.is_some());
             let want = func_sig(&wt[*fid]);
             if got != want { return Err(format!("{path}: decoded signature (params {:?}, result {}), the component has (params {:?}, result {})", got.0, got.1, want.0, want.1)); }
+            if types[id].is_async != wt[*fid].async_ { return Err(format!("{path}: decoded is_async = {}, the component says {}", types[id].is_async, wt[*fid].async_)); }
+            for ((n, a), (_, b)) in types[id].params.iter().zip(wt[*fid].params.iter()) { if !val_eq(types, *a, wt, *b) { return Err(format!("{path}: the decoded type of parameter `{n}` differs structurally from the component's")); } }
+            if let (Some(a), Some(b)) = (types[id].result, wt[*fid].result) { if !val_eq(types, a, wt, b) { return Err(format!("{path}: the decoded result type differs structurally from the component's")); } }
             Ok(1)
         }
         (ItemKind::Instance(id), ComponentEntityType::Instance(iid)) => {
